@@ -260,6 +260,12 @@ WF_INDEX = ("I1", "I2")
 WF_PROP = {"S1": "C01", "S2": "C01", "S3": "C01", "S4": "C01", "S5": "C01", "S6": "C01", "S6r": "C01", "K": "C01", "I1": "C01", "I2": "C02", "U": "C03"}
 
 
+def oracle_fn(sig: str):
+    """Uninterpreted pure function standing for a user callback with argument kinds `sig`
+    ('r' = object reference, 'v' = value): oracle(callback value, args...) -> Val."""
+    return Function(f"oracle_{sig}", *([Val] + [Ref if k == "r" else Val for k in sig] + [Val]))
+
+
 SPEC_AXIOMS: list = []
 _UPK: dict = {}
 
